@@ -17,7 +17,8 @@ type selectionSetInfo struct {
 	hasInlineFragmentsOnInterfaces bool
 	inlineFragmentsOnUnions        []inlineFragmentSelectionOnUnion
 	hasInlineFragmentsOnUnions     bool
-	typenameSelectionRef           int // selection ref of the __typename selection; ast.InvalidRef when __typename is not selected
+	typenameSelectionRef           int   // selection ref of the __typename selection; ast.InvalidRef when __typename is not selected
+	typenameSelectionRefs          []int // every __typename selection: the field can be selected under several response keys
 }
 
 // hasTypeNameSelection reports whether __typename is selected in this selection set.
@@ -77,7 +78,7 @@ func (s *inlineFragmentSelection) isFragmentOnInterface() bool {
 	return s.definitionNodeKind == ast.NodeKindInterfaceTypeDefinition
 }
 
-func (r *fieldSelectionRewriter) selectionSetFieldSelections(selectionSetRef int) (fieldSelections []fieldSelection, typenameSelectionRef int) {
+func (r *fieldSelectionRewriter) selectionSetFieldSelections(selectionSetRef int) (fieldSelections []fieldSelection, typenameSelectionRef int, typenameSelectionRefs []int) {
 	typenameSelectionRef = ast.InvalidRef
 
 	fieldSelectionRefs := r.operation.SelectionSetFieldSelections(selectionSetRef)
@@ -88,6 +89,7 @@ func (r *fieldSelectionRewriter) selectionSetFieldSelections(selectionSetRef int
 
 		if fieldName == typeNameField {
 			typenameSelectionRef = fieldSelectionRef
+			typenameSelectionRefs = append(typenameSelectionRefs, fieldSelectionRef)
 		}
 
 		fieldSelections = append(fieldSelections, fieldSelection{
@@ -96,7 +98,7 @@ func (r *fieldSelectionRewriter) selectionSetFieldSelections(selectionSetRef int
 		})
 	}
 
-	return fieldSelections, typenameSelectionRef
+	return fieldSelections, typenameSelectionRef, typenameSelectionRefs
 }
 
 func (r *fieldSelectionRewriter) collectFieldInformation(fieldRef int) (selectionSetInfo, error) {
@@ -202,7 +204,7 @@ func (r *fieldSelectionRewriter) collectInlineFragmentInformation(
 }
 
 func (r *fieldSelectionRewriter) collectSelectionSetInformation(selectionSetRef int) (selectionSetInfo, error) {
-	fieldSelections, typenameSelectionRef := r.selectionSetFieldSelections(selectionSetRef)
+	fieldSelections, typenameSelectionRef, typenameSelectionRefs := r.selectionSetFieldSelections(selectionSetRef)
 
 	inlineFragmentSelectionRefs := r.operation.SelectionSetInlineFragmentSelections(selectionSetRef)
 	inlineFragmentSelectionsOnObjects := make([]inlineFragmentSelection, 0, len(inlineFragmentSelectionRefs))
@@ -220,6 +222,7 @@ func (r *fieldSelectionRewriter) collectSelectionSetInformation(selectionSetRef 
 		fields:                         fieldSelections,
 		hasFields:                      len(fieldSelections) > 0,
 		typenameSelectionRef:           typenameSelectionRef,
+		typenameSelectionRefs:          typenameSelectionRefs,
 		inlineFragmentsOnObjects:       inlineFragmentSelectionsOnObjects,
 		hasInlineFragmentsOnObjects:    len(inlineFragmentSelectionsOnObjects) > 0,
 		inlineFragmentsOnInterfaces:    inlineFragmentsOnInterfaces,
